@@ -12,6 +12,10 @@ C13_OPS = ['prefix_increment', 'prefix_decrement', 'postfix_increment', 'postfix
            'right_shift', 'bitwise_and', 'bitwise_or', 'bitwise_xor', 'boolean_and', 'boolean_or', 'less_than',
            'less_equal', 'greater_than', 'greater_equal', 'equality', 'inequality']
 
+# divisor in {0, 1, -1 / all-ones}, any dividend: the cases the statement singles out
+C13_SLOW_FIRST = ['modulus_special_divisors', 'divide_special_divisors', 'bitwise_and', 'subtract', 'bitwise_xor', 'bitwise_or', 'add',
+                  'left_shift', 'right_shift', 'minus', 'bitwise_not']
+
 C11_SHAPES = ['c11_shape_or', 'c11_shape_and', 'c11_shape_eq', 'c11_shape_ne', 'c11_shape_lt', 'c11_shape_lt_adjacent', 'c11_shape_le',
               'c11_shape_gt', 'c11_shape_ge', 'c11_prec_or_and', 'c11_prec_and_or', 'c11_prec_and_eq', 'c11_prec_eq_lt', 'c11_prec_lt_eq',
               'c11_assoc_lt_lt', 'c11_assoc_eq_ne', 'c11_assoc_or_or', 'c11_shape_lt_space_eq_is_not_le']
@@ -83,10 +87,10 @@ PROPS = {
         'v_units': ['evaluator'],
         'k_groups': [
             {'module': 'typer/evaluator.rs',
-             'harnesses': [('c13_op_' + o, 'complete') for o in C13_OPS if o not in ('multiply', 'divide', 'modulus')]
-                          + [('c13_op_nonconstant_argument_propagates', 'complete'),
-                             # divisor in {0, 1, -1 / all-ones}, any dividend: the cases the statement singles out
-                             ('c13_op_divide_special_divisors', 'complete'), ('c13_op_modulus_special_divisors', 'complete')]
+             # longest-running first (the scheduler takes them in this order): 5-6 min each down to 20 s
+             'harnesses': [('c13_op_' + o, 'complete') for o in C13_SLOW_FIRST]
+                          + [('c13_op_' + o, 'complete') for o in C13_OPS if o not in C13_SLOW_FIRST and o not in ('multiply', 'divide', 'modulus')]
+                          + [('c13_op_nonconstant_argument_propagates', 'complete')]
                           + [('c13_cast_to_' + t, 'complete') for t in ('bool', 'int', 'uint', 'half', 'float', 'double', 'enum_int', 'enum_uint')],
              'tier': 'quick'},
             {'module': 'ir/ir_types.rs',
